@@ -227,6 +227,37 @@ impl TimedCache {
         }
     }
 
+    /// Put items read from the data layer into the cache. `still_current` is evaluated for each item
+    /// while that item's slot in the cache is locked, and the item is stored only if it returns true:
+    /// a writer that has announced itself before updating the data layer (making `still_current` false)
+    /// and that puts its records into the cache afterwards can then never be overwritten by older data.
+    pub async fn batch_put_if<F: Fn() -> bool + Send + Sync>(
+        &self,
+        records: &[DbRecord],
+        still_current: F,
+    ) {
+        self.clean().await;
+
+        for record in records.iter() {
+            if let DbRecord::Azks(azks_ref) = &record {
+                let mut azks_guard = self.azks.write().await;
+                if still_current() {
+                    *azks_guard = Some(DbRecord::Azks(azks_ref.clone()));
+                }
+            } else {
+                let item = CachedItem {
+                    expiration: Instant::now() + self.item_lifetime,
+                    data: record.clone(),
+                };
+                // the entry holds the lock of the key's shard until it is dropped
+                let slot = self.map.entry(record.get_full_binary_id());
+                if still_current() {
+                    slot.insert(item);
+                }
+            }
+        }
+    }
+
     /// Flush the cache.
     pub async fn flush(&self) {
         self.map.clear();
